@@ -54,3 +54,48 @@ def install_stream_iter(callees):
 
 STD_GLOBS = {"Stream": Stream}
 STD_CALLEES = install_stream_iter({})
+
+
+def repo_call(qual, repo=None):
+    """callee model for a repository function that has its own contract: the
+    arguments are bound against the REAL signature (names and default values are
+    read from the repository source on every run) and the call is recorded."""
+    import ast
+    from . import extract
+
+    @callee
+    def f(m, args, kwargs):
+        node, _, _ = extract.find(qual, repo)
+        a = node.args
+        names = [x.arg for x in a.args]
+        defaults = dict(zip(names[len(names) - len(a.defaults):], a.defaults))
+        bound = {}
+        if len(args) > len(names):
+            raise Unsupported("too many arguments for %s" % qual)
+        for n, v in zip(names, args):
+            bound[n] = v
+        for k, v in kwargs.items():
+            if k in bound or k not in names:
+                raise Unsupported("bad keyword %s for %s" % (k, qual))
+            bound[k] = v
+        for n in names:
+            if n not in bound:
+                if n not in defaults:
+                    raise sym.PyRaise("TypeError")
+                d = defaults[n]
+                if not isinstance(d, ast.Constant):
+                    raise Unsupported("non-literal default of %s.%s" % (qual, n))
+                bound[n] = d.value
+        return sym.CallRes(qual, bound)
+    return f
+
+
+@callee
+def rint(m, args, kwargs):
+    """lazy_misc.rint with step == 1: its contract (contracts/c19.py 'rint') proves result == RINT(x)"""
+    if len(args) != 1 or kwargs:
+        raise Unsupported("rint with a step")
+    (x,) = args
+    if isinstance(x, int):
+        return x
+    return sym.rint_spec(x)
